@@ -1237,6 +1237,12 @@ from ..selftest import Seed, unparse_seed  # noqa: E402
 _T = "src/odfdo/table.py"
 _R = "src/odfdo/row.py"
 SEEDS = [
+    Seed("get_values clips its end bound to the declared width", "fault", "src/odfdo/table.py",
+         "                width = min(z + 1, self.width)\n            if x is not None:\n                width -= x\n            values = row.get_values(",
+         "                z = min(z, self.width - 1)\n                width = z + 1\n            if x is not None:\n                width -= x\n            values = row.get_values(", "R19n", count=2),
+    Seed("get_values names the padded width differently", "neutral", "src/odfdo/table.py",
+         "                width = min(z + 1, self.width)\n            if x is not None:\n                width -= x\n            values = row.get_values(",
+         "                last = min(z, self.width - 1)\n                width = last + 1\n            if x is not None:\n                width -= x\n            values = row.get_values(", count=2),
     Seed("set_named_range updates an existing definition in place", "fault", _T,
          "        named_range = NamedRange(name, crange, table_name, usage)\n        body.append_named_range(named_range)",
          "        current = body.get_named_range(name)\n        if current is not None:\n            current.set_range(crange)\n            current.set_usage(usage)\n            return\n        named_range = NamedRange(name, crange, table_name, usage)\n        body.append_named_range(named_range)", "R19m"),
